@@ -1693,3 +1693,88 @@ Proof.
       eapply IH; eauto.
     + apply (IH c bs). rewrite parse_form_direct in * by assumption. assumption.
 Qed.
+
+(* ------------------------------------------------------------------ *)
+(** * Fuel-free characterisation of parse_attribute (for users of the model) *)
+
+Lemma parse_attribute_direct dbg e spec bs : at_form spec <> DW_FORM_indirect ->
+  parse_attribute dbg e spec bs =
+  match form_of_code (at_form spec) with
+  | Some f => decode_by_layout dbg e spec f bs
+  | None => Err EUnknownForm
+  end.
+Proof.
+  intros H. unfold parse_attribute. rewrite parse_form_direct by assumption.
+  destruct (form_of_code (at_form spec)) as [f|] eqn:E.
+  - apply form_of_code_some in E. rewrite E in *.
+    apply parse_direct_known. intros ->. apply H. reflexivity.
+  - apply parse_direct_unknown. assumption.
+Qed.
+
+(* parse_form looks at the specification only through its name and implicit constant *)
+Lemma parse_form_spec_irrelevant : forall fuel dbg e s1 s2 c bs,
+  at_name s1 = at_name s2 -> implicit_const_value s1 = implicit_const_value s2 ->
+  parse_form fuel dbg e s1 c bs = parse_form fuel dbg e s2 c bs.
+Proof.
+  induction fuel as [|fuel IH]; intros dbg e s1 s2 c bs Hn Hi; cbn [parse_form].
+  - destruct (c =? DW_FORM_indirect); [reflexivity|]. unfold parse_direct. rewrite Hn, Hi. reflexivity.
+  - destruct (c =? DW_FORM_indirect).
+    + destruct (read_uleb128_u16 bs) as [[c' r']| | |]; cbn [bind]; try reflexivity. apply IH; assumption.
+    + unfold parse_direct. rewrite Hn, Hi. reflexivity.
+Qed.
+
+(* one DW_FORM_indirect hop: the dynamic form replaces the form of the specification
+   (name and implicit constant stay; DW_FORM_implicit_const cannot be reached this way) *)
+Lemma parse_attribute_indirect dbg e spec bs : at_form spec = DW_FORM_indirect ->
+  parse_attribute dbg e spec bs =
+  let* (c, r) := read_uleb128_u16 bs in
+  if c =? DW_FORM_implicit_const then Err EInvalidImplicitConst
+  else parse_attribute dbg e (mkSpec (at_name spec) c (at_implicit spec)) r.
+Proof.
+  intros H. unfold parse_attribute. rewrite H, parse_form_indirect.
+  destruct (read_uleb128_u16 bs) as [[c r]| | |] eqn:R; cbn [bind]; try reflexivity.
+  apply read_u16leb_shrinks in R. cbn [at_form].
+  rewrite (parse_form_fuel (length bs) (S (length r))) by lia.
+  destruct (N.eqb_spec c DW_FORM_implicit_const) as [->|Hc].
+  - rewrite parse_form_direct by discriminate.
+    unfold parse_direct, implicit_const_value. rewrite H. reflexivity.
+  - apply parse_form_spec_irrelevant; [reflexivity|].
+    unfold implicit_const_value. cbn [at_form]. rewrite H.
+    apply N.eqb_neq in Hc. rewrite Hc. reflexivity.
+Qed.
+
+Lemma skip_var_unknown dbg e c bs : form_of_code c = None -> skip_var dbg e c bs = Err EUnknownForm.
+Proof. intros Hn. unfold skip_var. kill_eqbs Hn c. reflexivity. Qed.
+
+Lemma unknown_form_rejected dbg e spec bs : form_of_code (at_form spec) = None ->
+  parse_attribute dbg e spec bs = Err EUnknownForm /\
+  skip_attributes dbg e [spec] bs = Err EUnknownForm.
+Proof.
+  intros Hn.
+  assert (Hi : at_form spec <> DW_FORM_indirect) by (intros E; rewrite E in Hn; discriminate Hn).
+  split.
+  - rewrite parse_attribute_direct by assumption. rewrite Hn. reflexivity.
+  - unfold skip_attributes. cbn [skip_specs skip_form].
+    rewrite get_attribute_size_unknown by assumption. cbn [N.eqb bind].
+    apply N.eqb_neq in Hi. rewrite Hi. rewrite skip_var_unknown by assumption. reflexivity.
+Qed.
+
+(* ------------------------------------------------------------------ *)
+(** * Packaged statements for Properties/C03.v *)
+
+Lemma udata_sdata v : value_in_range v ->
+  udata_value v = unsigned_reading v /\ sdata_value v = signed_reading v.
+Proof. intros H; split; [apply udata_value_spec|apply sdata_value_spec]; assumption. Qed.
+
+Lemma no_panic dbg e spec specs bs :
+  (parse_attribute dbg e spec bs <> Panic /\ parse_attribute dbg e spec bs <> OutOfFuel) /\
+  (read_attributes dbg e specs bs <> Panic /\ read_attributes dbg e specs bs <> OutOfFuel) /\
+  (skip_attributes dbg e specs bs <> Panic /\ skip_attributes dbg e specs bs <> OutOfFuel).
+Proof.
+  split; [apply parse_attribute_res|]. split; [apply read_attributes_res|apply skip_attributes_res].
+Qed.
+
+Lemma build_mode_irrelevant dbg e spec specs bs :
+  parse_attribute dbg e spec bs = parse_attribute false e spec bs /\
+  skip_attributes dbg e specs bs = skip_attributes false e specs bs.
+Proof. split; [apply parse_attribute_dbg|apply skip_attributes_dbg]. Qed.
